@@ -257,10 +257,14 @@ func (h *hnode) mkErr(code int64, ev *firebolt.Event) error {
 	h.r.errSeq++
 	msg := fmt.Sprintf("verr-%s-%d", h.r.prefix, h.r.errSeq)
 	var e error
-	if h.r.errSeq%2 == 0 {
+	switch h.r.errSeq % 3 {
+	case 0:
 		e = firebolt.NewFBError(fmt.Sprintf("CODE%d", code), msg)
-	} else {
+	case 1:
 		e = errors.New(msg)
+	default:
+		// an error that wraps a structured one: the handler must still get THIS error, not the one inside
+		e = fmt.Errorf("%s: %w", msg, firebolt.NewFBError(fmt.Sprintf("CODE%d", code), "inner"))
 	}
 	h.r.errs[e.Error()] = &errInfo{code: code, ev: ev, err: e}
 	return e
